@@ -227,24 +227,27 @@ def check_mean(case, rec):
     ab = ref["abs"]
     norm = ab["tw"] if ab["tw"] else 1.0
     shell_abs = ab["shell"] / norm
-    ill = shell_abs > 0 and abs(ref["shell"]) < 1e-3 * shell_abs
+    # (judged on the sum itself: when it cancels EXACTLY the reference shows the library's placeholder 1.0)
+    ill = shell_abs > 0 and abs(ref.get("shell_raw", ref["shell"])) < 1e-3 * shell_abs
     form_abs = ab["form"] / norm
     if ill:
         rec.cls("ill-conditioned-volume")
     else:
         f2abs = np.max(ab["F2"]) / norm if len(ab["F2"]) else 0.0
         scale_ref = abs(float(pars.get("scale", 1.0))) * f2abs / abs(ref["shell"])
+        scale_ref += 1e-14 * contrast_scale(info, pars, ref["shell"]) / TOL     # see contrast_scale
         msg = close(np.asarray(I) - background, ref["I"] - background, scale_ref)
         if msg:
             rec.fail("I:" + tag, "%s: %s" % (name, msg))
     fq_pars = dict(pars)
     fq_pars["radius_effective_mode"] = mode
     F1, F2, reff, shell, ratio = direct_model.call_Fq(kernel, fq_pars, cutoff=cutoff)
-    msg = close(F2, ref["F2"], np.max(ab["F2"]) / norm if len(ab["F2"]) else 0.0)
+    cs_f2 = contrast_scale(info, dict(pars, scale=1.0), ref["shell"]) * abs(ref["shell"])     # magnitude of <F^2>
+    msg = close(F2, ref["F2"], (np.max(ab["F2"]) / norm if len(ab["F2"]) else 0.0) + 1e-14 * cs_f2 / TOL)
     if msg:
         rec.fail("F2:" + tag, "%s: %s" % (name, msg))
     if F1 is not None:
-        msg = close(F1, ref["F1"], np.max(ab["F1"]) / norm if len(ab["F1"]) else 0.0)
+        msg = close(F1, ref["F1"], (np.max(ab["F1"]) / norm if len(ab["F1"]) else 0.0) + 1e-14 * math.sqrt(cs_f2) / TOL)
         if msg:
             rec.fail("F1:" + tag, "%s: %s" % (name, msg))
     checks = [("shell", shell, ref["shell"], shell_abs), ("reff", reff, ref["reff"], ab["reff"] / norm)]
@@ -253,7 +256,8 @@ def check_mean(case, rec):
     for label, got, want, mag in checks:
         if label == "shell" and ill:
             # kernel.py replaces an exactly-zero mean shell volume by 1; near-cancellation is rounding
-            if abs(got - want) <= TOL * shell_abs or (got == 1.0):
+            raw = ref.get("shell_raw", want)
+            if abs(got - want) <= TOL * shell_abs or abs(got - raw) <= TOL * shell_abs or (got == 1.0):
                 continue
         msg = close(got, want, mag)
         if msg:
